@@ -24,7 +24,7 @@ import (
 func init() { register("C01", runC01) }
 
 var c01Constructs = []string{"Split", "ProcessParallel", "ParallelForEach", "itertool.Worker", "Map", "ParallelBuffer", "Buffer",
-	"MergeIterators", "GenerateParallel", "ConcurrentReadOne", "WorkerPool", "OperationPool", "Map(ParallelBuffer(Split1))", "ProcessParallel(Buffer(Merge))", "itertool.Process", "FirstAdvance"}
+	"MergeIterators", "GenerateParallel", "ConcurrentReadOne", "WorkerPool", "OperationPool", "Map(ParallelBuffer(Split1))", "ProcessParallel(Buffer(Merge))", "itertool.Process", "FirstAdvance", "FirstAdvance", "FirstAdvance"}
 
 var c01Workers = []int{1, 2, 3, 4, 8, 16, 33}
 
@@ -309,7 +309,7 @@ func c01Case(r *kit.Run, idx int64, rng *rand.Rand) {
 			wantOut = true
 			stage := []string{"Map", "Split", "ParallelBuffer", "Buffer", "GenerateParallel", "MergeIterators"}[seed/3%6]
 			readers := 2 + int(seed/5%7)
-			rounds, m := 24, 1+int(seed/11%12)
+			rounds, m := 40, 1+int(seed/11%12)
 			n = rounds * m
 			expect = make([]int, n)
 			for i := range expect {
